@@ -9,7 +9,7 @@ Val(x) == [z |-> x.z, e |-> x.e, m |-> x.m]
 
 Clauses(r) ==
   LET A == Range(r.a)  B == Range(r.b)  C == Range(r.c)
-      names == <<"ab", "ba", "ac", "ca", "bc", "cb", "wab", "wba", "aug", "pab", "pac", "mab", "mac", "maa", "mbc">>
+      names == <<"ab", "ba", "ac", "ca", "bc", "cb", "wab", "wba", "aug", "pab", "pac", "mab", "mac", "maa", "mbc", "qab", "qac">>
       ok == r.ok /\ \A i \in DOMAIN names : WF(r.d[names[i]])
       d(n) == Val(r.d[n])
       X == Range(r.ax)  Y == Range(r.bx)           \* A + {x}, B + {x} with x in neither
@@ -25,7 +25,7 @@ Clauses(r) ==
           /\ FixLeq(Fix(d("ac")), FixAdd(FixAdd(Fix(d("ab")), Fix(d("bc"))), Slack22))
           /\ FixLeq(Fix(d("ab")), FixAdd(FixAdd(Fix(d("ac")), Fix(d("cb"))), Slack22))
           /\ FixLeq(Fix(d("bc")), FixAdd(FixAdd(Fix(d("ba")), Fix(d("ac"))), Slack22))>>,
-     <<"width-independent", ok => d("wab") = d("ab") /\ d("wba") = d("ba")>>,
+     <<"width-independent", ok => d("wab") = d("ab") /\ d("wba") = d("ba") /\ d("qab") = d("ab") /\ d("qac") = d("ac")>>,
      <<"one-against-many-path-agrees", ok => d("pab") = d("ab") /\ d("pac") = d("ac")>>,
      <<"index-selected-bulk-paths-agree", ok => d("mab") = d("ab") /\ d("mac") = d("ac") /\ d("maa") = F32Zero /\ d("mbc") = d("bc")>>,
      <<"augmenting-both-strictly-decreases", ok => IF A = B THEN d("aug") = F32Zero ELSE F32Less(d("aug"), d("ab"))>>,
